@@ -34,7 +34,7 @@ HasField(nodes, f) == \E k \in DOMAIN nodes : nodes[k].field = f
 FieldOf(nodes, f)  == nodes[CHOOSE k \in DOMAIN nodes : nodes[k].field = f]
 Proj(ps) == [k \in DOMAIN ps |-> [l |-> ps[k].l, f |-> ps[k].f, t |-> ps[k].t]]
 
-WrapSig(w) == IF w.levels = <<>> /\ ~w.docB /\ ~w.docA THEN "plainfile"
+WrapSig(w) == IF w.levels = <<>> /\ ~w.docB /\ ~w.docA /\ w.docE = "none" THEN "plainfile"
               ELSE IF w.embed THEN "embedded" ELSE "nested"
 
 InSpan(p, allow) == \E a \in DOMAIN allow : allow[a].l = p.l /\ allow[a].lo <= p.f /\ p.f <= p.t /\ p.t <= allow[a].hi
